@@ -483,6 +483,15 @@ impl OutputList {
                     .write_event(text_event)
                     .map_err(SvgdxError::from_err)?;
             }
+            if let OutputEvent::CData(ref content) = event {
+                // a literal ']]>' has to be split across CDATA sections
+                for cdata in BytesCData::escaped(content) {
+                    writer
+                        .write_event(Event::CData(cdata))
+                        .map_err(SvgdxError::from_err)?;
+                }
+                continue;
+            }
             writer.write_event(event).map_err(SvgdxError::from_err)?;
         }
         // re-add any trailing text
